@@ -214,6 +214,75 @@ def run_shard(sh):
         if gen.norm(r['nlri']) != gen.norm(want_nlri) or gen.norm(r['withdraw']) != gen.norm(want_wd):
             bad('reference-decode-differs', feats + ['prefixes'], 'prefix lists: encoded %s / %s decoded %s / %s (variants %s)' % (
                 json.dumps(want_nlri)[:200], json.dumps(want_wd)[:100], json.dumps(gen.norm(r['nlri']))[:200], json.dumps(gen.norm(r['withdraw']))[:100], variants), rep)
+    # ------------------------------------------------------------ add-path identifiers inside MP_REACH / MP_UNREACH (codec level)
+    AP_FAMS = {'ipv6': 'ipv6', 'ipv4_lu': 'ipv4_lu', 'ipv6_lu': 'ipv6_lu', 'vpnv4': 'vpnv4', 'vpnv6': 'vpnv6', 'ipv4-mp': 'ipv4'}
+    nap = 0
+    for i in range(sh['n'] // 6):
+        fam = rng.choice(sorted(AP_FAMS))
+        wd = rng.random() < 0.3 and fam not in ('ipv4_lu', 'ipv6_lu')
+        key = 'withdraw' if wd else 'nlri'
+        if fam == 'ipv4-mp':
+            v = {'afi_safi': [1, 1], key: gen.prefix_list4(rng, 6) or ['192.0.2.0/24']}
+            if not wd:
+                v['nexthop'] = gen.ipv4(rng, 'rand')
+        else:
+            v = gen.mp_value(rng, fam, withdraw=wd, nmax=5)
+        routes = v[key]
+        if fam == 'ipv6':
+            routes = [r for j, r in enumerate(routes) if r != '::/0' or j == 0]
+        pids = [rng.choice([0, 0, 1, 255, 65536, 4294967295, rng.getrandbits(32)]) for _ in routes]
+        afs = tuple(v['afi_safi'])
+        head = refenc.mp_unreach_value(dict(v, withdraw=[])) if wd else refenc.mp_reach_value(dict(v, nlri=[]))
+        val = head + b''.join(struct.pack('!I', pid) + refenc.family_nlri_bytes(afs, [r], wd) for pid, r in zip(pids, routes))
+        at = refenc.attr(1, b'\x00') + refenc.attr(2, b'') + refenc.attr(15 if wd else 14, val)
+        body = struct.pack('!H', 0) + struct.pack('!H', len(at)) + at
+        if len(body) > 4077:
+            continue
+        nap += 1
+        res['evaluations'] += 1
+        rep = dict(body=body.hex(), asn4=True, addpath_family=AP_FAMS[fam])
+        feats = ['variant:addpath-mp', 'family:' + fam] + (['path-id-0'] if 0 in pids else [])
+        try:
+            r = Update.parse(None, body, True, {AP_FAMS[fam]: True})
+        except Exception as e:
+            bad('reference-decode-raised', feats, 'Update.parse raised %r on add-path %s routes %s' % (e, fam, json.dumps(gen.norm(routes))[:200]), rep)
+            continue
+        want = dict(v)
+        want[key] = [dict(r, path_id=pid) if isinstance(r, dict) else {'prefix': r, 'path_id': pid} for pid, r in zip(pids, routes)]
+        want_attr = expected({1: 0, 2: [], (15 if wd else 14): want})
+        got_attr = gen.norm(r['attr'] or {})
+        if r['sub_error'] or got_attr != want_attr:
+            k = '15' if wd else '14'
+            bad('reference-decode-differs', feats, 'add-path %s: encoded %s decoded %s (sub_error %s)' % (
+                fam, json.dumps(want_attr.get(k))[:300], json.dumps(got_attr.get(k))[:300], r['sub_error']), rep)
+    vcount['addpath_mp'] = nap
+    # ------------------------------------------------------------ flowspec rules around the 240-octet boundary of the NLRI length form
+    nfs = 0
+    for n in [100, 110, 115, 116, 117, 118, 119, 120, 121, 122, 123, 124, 125, 126, 130, 200, 400] if sh['part'] < 4 else []:
+        terms = [rng.choice([1, 6, 17, 80, 255]) for _ in range(n)]
+        rule = {1: gen.prefix4(rng, 24, 'rand'), 5: '|'.join('=%d' % t for t in terms)}
+        v = {'afi_safi': [1, 133], 'nexthop': '', 'nlri': [rule, {1: '192.0.2.0/24'}]}
+        for code in (14, 15):
+            vv = dict(v) if code == 14 else {'afi_safi': [1, 133], 'withdraw': v['nlri']}
+            val = refenc.mp_reach_value(vv) if code == 14 else refenc.mp_unreach_value(vv)
+            at = refenc.attr(1, b'\x00') + refenc.attr(2, b'') + refenc.attr(code, val)
+            body = struct.pack('!H', 0) + struct.pack('!H', len(at)) + at
+            nfs += 1
+            res['evaluations'] += 1
+            rep = dict(body=body.hex(), asn4=True)
+            rl = len(refenc.flowspec_rule_bytes(rule))
+            feats = ['variant:flowspec-long-rule', 'attr:%d' % code, 'length-form:%d-octet' % (1 if rl < 241 else 2)]
+            try:
+                r = Update.parse(None, body, True)
+            except Exception as e:
+                bad('reference-decode-raised', feats, 'Update.parse raised %r on a flowspec rule of %d octets' % (e, rl), rep)
+                continue
+            want_attr = expected({1: 0, 2: [], code: vv})
+            got_attr = gen.norm(r['attr'] or {})
+            if r['sub_error'] or got_attr != want_attr:
+                bad('reference-decode-differs', feats, 'flowspec rule of %d octets (with its length field): encoded %s decoded %s (sub_error %s)' % (
+                    rl, json.dumps(want_attr.get(str(code)))[:200], json.dumps(got_attr.get(str(code)))[:200], r['sub_error']), rep)
+    vcount['flowspec_long_rules'] = nfs
     # ------------------------------------------------------------ error half
     nerr = 0
     base = {1: 0, 2: [[2, [65001]]], 3: '10.0.0.1'}
